@@ -1,2 +1,122 @@
+"""C01 clause 2 - frames of the pose write-back, of AlignmentResult.affine_matrix and of the template bank."""
+from __future__ import annotations
+
+import ast
+
+from ..absint import TOP, FuncRef, Interp, Obj, ListOf, Tup
+from ..domains.frames import AffT, FramesDomain, Rot, Vec
+from ..repo import norm_src
+from .common import SinkTable
+
+LB = "acryo/loader/_base.py::LoaderBase."
+WRITEBACK = [LB + "_post_align", LB + "_post_align_multi_templates"]
+
+
 def frames_clause(model, rep, funcs):
-    pass
+    sinks = SinkTable()
+    for a in WRITEBACK:
+        f = funcs.get(a)
+        if f is None:
+            continue
+        dom = FramesDomain(model)
+        it = Interp(model, dom, depth=5)
+
+        def on_call(interp, fn, node, callee, args, kwargs, env, _a=a):
+            if fn.anchor != _a or not isinstance(callee, FuncRef):
+                return
+            if {g.name for g in callee.funcs} & {"replace"} and "molecules" in kwargs:
+                m = kwargs["molecules"]
+                if not isinstance(m, Obj):
+                    sinks.observe(fn, node, "pose", None, "", "aligned molecules: pose update typed")
+                    return
+                rot = m.fields.get("_rotator", TOP)
+                pos = m.fields.get("_pos", TOP)
+                want = Rot("Mp", "W")
+                ok = None if rot is TOP else (rot == want)
+                sinks.observe(fn, node, "rotator", ok, f"new orientation has type {rot!r}, required {want!r} "
+                              "(molecule orientation composed on the right with the alignment rotation)",
+                              "orientation update is an internal (right) composition R_mol * R_align")
+                if isinstance(pos, Vec):
+                    okp = pos.kind == "pos" and pos.frame == "W" and pos.moved == frozenset({"shift@M->W"})
+                    sinks.observe(fn, node, "position", okp, f"new position is {pos!r}; required: world position moved once by the "
+                                  "alignment shift mapped M->W by the input molecule's own rotation, not passed through the alignment rotation",
+                                  "shift is applied along the input molecule's own axes")
+                else:
+                    sinks.observe(fn, node, "position", None if pos is TOP else False, f"new position is {pos!r}",
+                                  "shift is applied along the input molecule's own axes")
+
+        it.on_call.append(on_call)
+        it.run(f)
+        for kind, fn, node, msg in dom.events:
+            rep.instance("F", fn.loc(node))
+            rep.ob("F", fn.anchor, "frames agree at rotation application / composition / vector addition (evaluated from " + f.short + ")",
+                   False, msg, node=node, fn=fn, clause="2 frames")
+    sinks.emit(rep, "F", clause="2 frames")
+    transform_semantics_clause(model, rep, funcs)
+
+
+AB = "acryo/alignment/_base.py::"
+
+
+def transform_semantics_clause(model, rep, funcs):
+    """What an AlignmentResult denotes, and that the template bank / fit use the same convention."""
+    sinks = SinkTable()
+    # (a) AlignmentResult.affine_matrix = T(shift[M]) @ [T(c) R T(-c)],  R: Mp -> M
+    f = funcs.get(AB + "AlignmentResult.affine_matrix")
+    if f is not None:
+        dom = FramesDomain(model)
+        it = Interp(model, dom, depth=3)
+        out = it.run(f)
+        want = Rot("Mp", "M")
+        ok = None
+        det = f"returned {out!r}"
+        if isinstance(out, AffT):
+            ok = out.rot == want and out.pre_shift == ("M",)
+            det = f"returned {out!r} with shift applied on the input side in frame(s) {out.pre_shift}; required Aff[Mp->M] with the shift in M"
+        rep.instance("F", f.loc())
+        rep.ob("F", f.anchor, "affine_matrix denotes T(shift in M) @ [T(c) R T(-c)] with R: aligned frame -> sub-volume frame",
+               ok, det, node=f.node, fn=f, clause="2 frames", stmt="def affine_matrix")
+        for kind, fn, node, msg in dom.events:
+            rep.ob("F", fn.anchor, "frames agree in AlignmentResult.affine_matrix", False, msg, node=node, fn=fn, clause="2 frames")
+
+    # (b) template bank: rotation handed to compose_matrices renders the template in the sub-volume frame
+    f = funcs.get(AB + "RotationImplemented._get_template_and_mask_input")
+    if f is not None:
+        dom = FramesDomain(model)
+        it = Interp(model, dom, depth=2)
+
+        def on_call(interp, fn, node, callee, args, kwargs, env):
+            if fn is f and isinstance(callee, FuncRef) and {g.name for g in callee.funcs} == {"compose_matrices"}:
+                r = args[1] if len(args) > 1 else kwargs.get("rotators")
+                e = interp.elem_of(r, node) if r is not None else TOP
+                want = Rot("M", "Mp")
+                ok = None if not isinstance(e, Rot) else e == want
+                sinks.observe(fn, node, "bank-rotation", ok, f"rotation handed to compose_matrices is {e!r}; the bank entry (output, sub-volume "
+                              f"axes M) must sample the template (input, Mp), i.e. {want!r} = inverse of the searched rotation",
+                              "template bank is rendered with the inverse of each searched rotation")
+
+        it.on_call.append(on_call)
+        it.run(f)
+
+    # (c) fit(): the matrix given to affine_transform is the result's affine matrix
+    for a in (AB + "BaseAlignmentModel.fit", AB + "RotationImplemented.fit"):
+        f = funcs.get(a)
+        if f is None:
+            continue
+        dom = FramesDomain(model)
+        it = Interp(model, dom, depth=3)
+
+        def on_call2(interp, fn, node, callee, args, kwargs, env, _f=f):
+            if fn is not _f:
+                return
+            nm = node.func.attr if isinstance(node.func, ast.Attribute) else ""
+            if nm == "affine_transform":
+                m = args[1] if len(args) > 1 else kwargs.get("matrix", TOP)
+                want = Rot("Mp", "M")
+                ok = None if not isinstance(m, AffT) else (m.rot == want and m.pre_shift == ("M",))
+                sinks.observe(fn, node, "fit-matrix", ok, f"matrix given to affine_transform is {m!r} (shift frames {getattr(m, 'pre_shift', None)}); "
+                              f"required Aff[Mp->M] built by AlignmentResult.affine_matrix", "fit() transforms the image with the result's own affine matrix")
+
+        it.on_call.append(on_call2)
+        it.run(f)
+    sinks.emit(rep, "F", clause="2 frames")
